@@ -84,6 +84,8 @@ int main(int argc, char **argv)
     const char t = type;
     bool ok = rc::check(std::string(vf_prop.id), [&]() {
         if (R.budget > 0 && R.searching && R.elapsed() > R.budget) { R.st.budget_skipped++; return; }
+        // bound the shrink phase: once exhausted every further candidate "passes", which ends rapidcheck's search
+        if (!R.searching) { if (R.shrink_t0 < 0) R.shrink_t0 = R.elapsed(); if (R.st.shrink_evals > 4000 || R.elapsed() - R.shrink_t0 > 25) return; }
         auto bytes = *rc::gen::container<std::vector<uint8_t>>(rc::gen::resize(rc::kNominalSize, rc::gen::arbitrary<uint8_t>()));
         bool held = R.run_case(t, bytes.data(), bytes.size());
         RC_ASSERT(held);
